@@ -7,6 +7,7 @@ layouts, segmentation (cut) generators, a back-pressure-safe piecewise sender, a
 import hashlib
 import os
 import re
+import socket
 
 from . import httpref
 from .core import HarnessError
@@ -225,3 +226,67 @@ def mask_head(raw_head):
     t = raw_head.decode('latin1')
     t = re.sub(r'(?im)^(Date|Expires|Last-Modified|Age|X-Squid-Error|Mime-Version|Via|X-Cache|X-Cache-Lookup|Cache-Status|Warning|Server|X-Forwarded-For):.*$', r'\1: *', t)
     return t
+
+
+# ------------------------------------------------------------------ slow readers (back-pressure inside Squid)
+
+SMALLBUF_CONF = 'tcp_recv_bufsize 4096 bytes\n'     # Squid sets SO_RCVBUF *and* SO_SNDBUF of its TCP sockets to this
+
+
+def small_client(sq, rcvbuf=4096):
+    """A client connection with a small receive buffer, so that a client that does not read makes Squid's
+    writes block after a few KB (together with SMALLBUF_CONF)."""
+    from . import lockstep
+    s = socket.socket(socket.AF_INET, socket.SOCK_STREAM)
+    s.setsockopt(socket.SOL_SOCKET, socket.SO_RCVBUF, rcvbuf)
+    s.connect(('127.0.0.1', sq.http_port))
+    return lockstep.Conn(s)
+
+
+def shrink_listener(listener, rcvbuf=4096):
+    """Accepted connections inherit the listener's receive buffer size."""
+    listener.s.setsockopt(socket.SOL_SOCKET, socket.SO_RCVBUF, rcvbuf)
+
+
+def sip(conn, n=1024):
+    """Read at most n bytes with one recv(); returns the number of bytes read (0: nothing there / EOF)."""
+    if conn.closed or conn.eof:
+        return 0
+    try:
+        d = conn.s.recv(n)
+    except BlockingIOError:
+        return 0
+    except (ConnectionResetError, BrokenPipeError):
+        conn.reset = True
+        conn.eof = True
+        return 0
+    except OSError:
+        conn.eof = True
+        return 0
+    if not d:
+        conn.eof = True
+        return 0
+    conn.inbuf += d
+    return len(d)
+
+
+def unread_bytes(conn):
+    """Bytes waiting in the kernel receive queue of conn (FIONREAD)."""
+    import fcntl
+    import struct
+    import termios
+    try:
+        return struct.unpack('i', fcntl.ioctl(conn.s.fileno(), termios.FIONREAD, b'\0\0\0\0'))[0]
+    except OSError:
+        return -1
+
+
+def merge_results(a, b):
+    """Merge two lockstep.run_cases() result dicts."""
+    out = {'evaluations': a['evaluations'] + b['evaluations'], 'outcomes': dict(a['outcomes']),
+           'violations': a['violations'] + b['violations'], 'samples': (a['samples'][:4] + b['samples'][:2]),
+           'deadline_hit': a['deadline_hit'] or b['deadline_hit'], 'crashes': a['crashes'] + b['crashes'],
+           'kicks': a['kicks'] + b['kicks'], 'replays': a['replays'] + b['replays']}
+    for k, v in b['outcomes'].items():
+        out['outcomes'][k] = out['outcomes'].get(k, 0) + v
+    return out
